@@ -1,7 +1,7 @@
 """Drive the REAL billiard.connection authentication code (C18).
 
-stdin : JSON {"cases": [...], "digestmod": "md5", "aux": bool}
-stdout: last line = JSON {"results": [...], "aux": {...}}
+stdin : JSON {"cases": [...], "digestmod": "md5", "aux": bool, "norm": [[key hex, msg hex], ...]}
+stdout: last line = JSON {"results": [...], "aux": {...}, "norm": [...]}
 
 A case:
   kind      'honest' (real Listener.accept against real Client, two threads)
@@ -28,6 +28,20 @@ A case:
             every later one fail in the kernel (EPIPE) while everything the peer wrote
             can still be read
 
+  kind 'replayL' / 'replayC' (two sessions): {key, c1, cc1, c2}.  Session 1 = an 'honest'
+            case, listener and client both holding `key`, challenges c1 (listener) and cc1
+            (client), everything sent is recorded.  Session 2: 'replayL' = the CLIENT's recorded
+            messages are played at a fresh real Listener.accept whose os.urandom yields c2;
+            'replayC' = the LISTENER's recorded messages are played at a fresh real Client
+            whose os.urandom yields c2.  Result: {'replay': [[case1, result1], [case2, result2]]}
+            -- two ordinary cases ('honest', then 'peerL' / 'peerC' with the recorded script).
+  real_urandom  (any kind) true: os.urandom is NOT scripted for this case (cl / cc ignored)
+
+"norm": for each [key, msg]: the block and digest size of the named hash, hash(key), the key
+as CPython's hmac.py prepares it (hash if longer than the block, pad with NULs to the block),
+and the REAL hmac of msg under the key and under the prepared key (H1 of
+coq/Proofs/AuthKeyProofs.v says the two are equal).
+
 Both ends are wrapped in a recorder that logs every send_bytes and detects
 starvation deterministically (no time-outs): a side is starved when nothing is
 in flight towards it and the peer has finished or is itself blocked with nothing
@@ -38,6 +52,7 @@ real connection), 'trace': every call in order, ['s', hex, err] / ['r', hex|null
 The digest table (real hmac) for the model is returned too.
 """
 import errno
+import hashlib
 import hmac
 import json
 import os
@@ -249,6 +264,8 @@ def run_case(c, digestmod):
     transport = c.get('transport', 'pipe')
     cl = bytes.fromhex(c.get('cl', ''))
     cc = bytes.fromhex(c.get('cc', ''))
+    if c.get('real_urandom'):
+        cl = cc = None                  # the real os.urandom
     script = [m if isinstance(m, dict) else bytes.fromhex(m) for m in c.get('script', [])]
     for side in 'LC':
         sh.sfaults[side] = list((c.get('sfaults') or {}).get(side) or [])
@@ -365,12 +382,54 @@ def run_case(c, digestmod):
             if kb not in keys:
                 keys.append(kb)
     msgs = []
-    for m in [cl, cc] + [s[len(bc.CHALLENGE):] for s in script
+    for m in [x for x in (cl, cc) if x is not None] + [s[len(bc.CHALLENGE):] for s in script
                          if not isinstance(s, dict) and s.startswith(bc.CHALLENGE)]:
         if m not in msgs:
             msgs.append(m)
     table = [[k.hex(), [[m.hex(), hmac.new(k, m, digestmod).digest().hex()] for m in msgs]] for k in keys]
     return dict(L=obs('L'), C=obs('C'), nL=asked_n('L'), nC=asked_n('C'), table=table)
+
+
+def run_replay(c, digestmod):
+    """two sessions of the real code: record an honest handshake, then play one party's
+    recorded messages at a fresh real endpoint of the other role"""
+    real = bool(c.get('real_urandom'))
+    case1 = dict(kind='honest', transport='pipe', kl=c['key'], kc=c['key'],
+                 cl=c.get('c1', ''), cc=c.get('cc1', ''))
+    if real:
+        case1['real_urandom'] = True
+    r1 = run_case(case1, digestmod)
+    if c['kind'] == 'replayL':
+        case2 = dict(kind='peerL', transport='pipe', kl=c['key'], cl=c.get('c2', ''),
+                     script=list(r1['C']['sent']) if r1.get('C') else [])
+    else:
+        case2 = dict(kind='peerC', transport='pipe', kc=c['key'], cc=c.get('c2', ''),
+                     script=list(r1['L']['sent']) if r1.get('L') else [])
+    if real:
+        case2['real_urandom'] = True
+    r2 = run_case(case2, digestmod)
+    return dict(replay=[[case1, r1], [case2, r2]])
+
+
+def hmac_prepared_key(key, digestmod):
+    """what Lib/hmac.py does to the key before xoring it with ipad / opad"""
+    bs = hashlib.new(digestmod).block_size
+    if len(key) > bs:
+        key = hashlib.new(digestmod, key).digest()
+    return key.ljust(bs, b'\0')
+
+
+def norm_facts(items, digestmod):
+    out = []
+    h0 = hashlib.new(digestmod)
+    for khex, mhex in items:
+        k, m = bytes.fromhex(khex), bytes.fromhex(mhex)
+        pk = hmac_prepared_key(k, digestmod)
+        out.append(dict(block=h0.block_size, digest_size=h0.digest_size,
+                        hk=hashlib.new(digestmod, k).digest().hex(), pynorm=pk.hex(),
+                        d_raw=hmac.new(k, m, digestmod).digest().hex(),
+                        d_norm=hmac.new(pk, m, digestmod).digest().hex()))
+    return out
 
 
 def aux_checks():
@@ -402,16 +461,33 @@ def aux_checks():
     out['challenge_prefix_ok'] = all(x.startswith(bc.CHALLENGE) for x in chal)
     out['challenge_lengths'] = [len(x) - len(bc.CHALLENGE) for x in chal]
     out['challenges_differ'] = chal[0] != chal[1]
+    # replay across sessions with the REAL os.urandom: a recorded handshake played at a fresh
+    # listener (resp. client) is refused, and the two challenges it met differ
+    for kind, side, name in (('replayL', 'L', 'listener'), ('replayC', 'C', 'client')):
+        rp = run_replay(dict(kind=kind, key=dict(t='bytes', hex=b'replay-key'.hex()), real_urandom=True),
+                        'md5' if not DIGESTMOD else DIGESTMOD)['replay']
+        (_, r1), (_, r2) = rp
+        ch1 = [m for m in r1[side]['sent'] if bytes.fromhex(m).startswith(bc.CHALLENGE)]
+        ch2 = [m for m in r2[side]['sent'] if bytes.fromhex(m).startswith(bc.CHALLENGE)]
+        out['replay_real_urandom_' + name] = dict(
+            session1=[r1['L']['out'], r1['C']['out']], session2=r2[side]['out'],
+            fresh_challenge=bool(ch1 and ch2 and ch1[0] != ch2[0]))
     return out
 
 
+DIGESTMOD = None
+
+
 def main():
+    global DIGESTMOD
     req = json.load(sys.stdin)
     bc.os = OsProxy()
-    digestmod = req.get('digestmod', 'md5')
-    results = [run_case(c, digestmod) for c in req['cases']]
+    digestmod = DIGESTMOD = req.get('digestmod', 'md5')
+    results = [run_replay(c, digestmod) if c['kind'] in ('replayL', 'replayC') else run_case(c, digestmod)
+               for c in req['cases']]
     aux = aux_checks() if req.get('aux') else {}
-    sys.stdout.write(json.dumps(dict(results=results, aux=aux)) + '\n')
+    norm = norm_facts(req.get('norm') or [], digestmod)
+    sys.stdout.write(json.dumps(dict(results=results, aux=aux, norm=norm)) + '\n')
     sys.stdout.flush()
     os._exit(0)
 
